@@ -24,6 +24,7 @@ PROFILE_MODULES = {
     "C01": "dsim.profiles.valuesp",
     "C02": "dsim.profiles.resave",
     "C03": "dsim.profiles.grid",
+    "C06": "dsim.profiles.layout",
     "C11": "dsim.profiles.addressing",
     "C12": "dsim.profiles.merge",
     "C15": "dsim.profiles.look",
